@@ -309,12 +309,16 @@ fn parts(ctx: &Ctx) -> Vec<PartSpec> {
         ]
     } else {
         vec![
-            PartSpec::new("e3-tree-cap0-3", json!({"caps": [0, 1, 2, 3], "extra": 4})).budget(1500.0),
-            PartSpec::new("e3-tree-cap4", json!({"caps": [4], "extra": 3})).budget(1500.0),
-            PartSpec::new("e1-push-vs-consume-pb4", json!({"e1": 4, "two": false})).budget(1500.0),
-            PartSpec::new("e1-2pushers-vs-consume-pb3", json!({"e1": 3, "two": true})).budget(1500.0),
-            PartSpec::new("e1-push-vs-2consumers-pb3", json!({"e1": 3, "two": false, "cons2": true})).budget(1500.0),
-            PartSpec::new("e1-2pushers-vs-consume-capacity1-pb3", json!({"e1": 3, "two": true, "cap": 1})).budget(1500.0),
+            PartSpec::new("e3-tree-cap0-3", json!({"caps": [0, 1, 2, 3], "extra": 6})).budget(1500.0),
+            PartSpec::new("e3-tree-cap4", json!({"caps": [4], "extra": 5})).budget(1500.0),
+            PartSpec::new("e3-tree-cap5", json!({"caps": [5], "extra": 5})).budget(1500.0),
+            PartSpec::new("e3-tree-cap6", json!({"caps": [6], "extra": 5})).budget(1500.0),
+            PartSpec::new("e3-tree-cap8", json!({"caps": [8], "extra": 4})).budget(1500.0),
+            PartSpec::new("e1-push-vs-consume-pb6", json!({"e1": 6, "two": false})).budget(1500.0),
+            PartSpec::new("e1-2pushers-vs-consume-pb4", json!({"e1": 4, "two": true})).budget(1500.0),
+            PartSpec::new("e1-push-vs-2consumers-pb4", json!({"e1": 4, "two": false, "cons2": true})).budget(1500.0),
+            PartSpec::new("e1-2pushers-vs-consume-capacity1-pb4", json!({"e1": 4, "two": true, "cap": 1})).budget(1500.0),
+            PartSpec::new("e1-2pushers-vs-consume-capacity2-pb3", json!({"e1": 3, "two": true, "cap": 2})).budget(1500.0),
         ]
     }
 }
